@@ -512,7 +512,7 @@ def replay_raise(case):
 
 
 def run(ctx):
-    n = ctx.pick(12, 1500)
+    n = ctx.pick(40, 1500)
     ctx.pmap(shard, [(ctx.shard_seed(i), n) for i in range(16)])
 
 
